@@ -267,6 +267,12 @@ def run_check(prop, tier, seed, replay=None, jobs=None, n_cases=None, write_evid
             proof_broken.append('theorem not discharged or inadmissible axioms: %s %s' % (n, axioms.get(n)))
     if ok_build and not names:
         proof_broken.append('no theorem found for ' + prop.id)
+    recheck = None
+    if ok_build and tier == 'thorough' and not replay and not os.environ.get('VERIF_NO_LEANCHECKER'):
+        ok_rc, n_mods, secs, rc_out = engine.leanchecker(prop.id)
+        recheck = {'tool': 'leanchecker', 'modules': n_mods, 'seconds': secs, 'ok': ok_rc}
+        if not ok_rc:
+            proof_broken.append('leanchecker rejected the compiled proofs: ' + rc_out)
 
     driver = None
     if ok_build:
@@ -456,6 +462,7 @@ def run_check(prop, tier, seed, replay=None, jobs=None, n_cases=None, write_evid
             'rule': prop.rule, 'samples': samples[:2] if samples else [r[3] for r in results[:1]],
             'distribution': dict(features.most_common(60)),
             'sismic_file': _sismic_file(),
+            'independent_recheck': recheck,
         }, **prop.extra_evidence()),
         'assumptions': list(prop.trusted),
     }
